@@ -23,6 +23,10 @@ type Env struct {
 	bound    int
 	errs     []string
 	letBusy  map[string]bool
+	pol      int    // polarity of the position being evaluated: 1 positive, -1 negative, 0 unknown
+	mode     int    // 0 plain; 1 goal (skolemise positive foralls); 2 hypothesis instance (bind positive foralls to instK)
+	instK    Term   // index term for mode 2
+	skolems  []Term // constants introduced in mode 1
 }
 
 var tInt = types.Typ[types.Int]
@@ -31,7 +35,7 @@ var tString = types.Typ[types.String]
 var tNil = types.Typ[types.UntypedNil]
 
 func (tr *Trans) newEnv(pre, post *State) *Env {
-	return &Env{tr: tr, pre: pre, post: post, vars: map[string]Val{}, reach: tr.rc, pkg: tr.pkg, contract: tr.contract, letBusy: map[string]bool{}}
+	return &Env{tr: tr, pre: pre, post: post, vars: map[string]Val{}, reach: tr.rc, pkg: tr.pkg, contract: tr.contract, letBusy: map[string]bool{}, pol: 1}
 }
 
 func (env *Env) cur() *State {
@@ -171,7 +175,13 @@ func (env *Env) eval(e ast.Expr) Val {
 	case *ast.SliceExpr:
 		return env.sliceExpr(x)
 	case *ast.UnaryExpr:
+		if x.Op == token.NOT {
+			env.pol = -env.pol
+		}
 		v := env.eval(x.X)
+		if x.Op == token.NOT {
+			env.pol = -env.pol
+		}
 		switch x.Op {
 		case token.NOT:
 			return Val{T: tBool, C: []Term{not(v.C[0])}}
@@ -218,7 +228,7 @@ func (env *Env) pkgObject(p *types.Package, name string) Val {
 	case *types.Const:
 		return tr.g.constToVal(tr.e, o.Val(), o.Type())
 	case *types.Var:
-		key := "G$" + p.Name() + "." + name
+		key := tr.g.globalKey(tr.e, p.Name(), name)
 		if isObjType(o.Type()) {
 			r := tr.e.declare("gref$"+p.Name()+"."+name, SInt)
 			return Val{T: types.NewPointer(o.Type()), C: []Term{r}}
@@ -423,7 +433,12 @@ func (env *Env) binary(x *ast.BinaryExpr) Val {
 	case token.LOR:
 		return Val{T: tBool, C: []Term{or(env.evalBool(x.X), env.evalBool(x.Y))}}
 	}
+	savedPol := env.pol
+	if x.Op == token.EQL || x.Op == token.NEQ {
+		env.pol = 0
+	}
 	a, b := env.eval(x.X), env.eval(x.Y)
+	env.pol = savedPol
 	if len(a.C) == 0 || len(b.C) == 0 {
 		return env.fail("operand without value in %s", exprString(x))
 	}
@@ -548,11 +563,31 @@ func (env *Env) callExpr(x *ast.CallExpr) Val {
 		env.useOld = saved
 		return v
 	case "__imp":
-		return Val{T: tBool, C: []Term{implies(env.evalBool(x.Args[0]), env.evalBool(x.Args[1]))}}
+		env.pol = -env.pol
+		a := env.evalBool(x.Args[0])
+		env.pol = -env.pol
+		return Val{T: tBool, C: []Term{implies(a, env.evalBool(x.Args[1]))}}
 	case "__forall", "__exists":
 		id, ok := x.Args[0].(*ast.Ident)
 		if !ok {
 			return env.fail("bad quantifier variable")
+		}
+		if name == "__forall" && env.pol == 1 && env.mode != 0 && tr.e.quiet == 0 {
+			// goal: prove the body for a fresh arbitrary index; hypothesis instance: the body at the given index
+			k := env.instK
+			if env.mode == 1 {
+				k = tr.e.fresh("sk$"+id.Name, SInt)
+				env.skolems = append(env.skolems, k)
+			}
+			saved, had := env.vars[id.Name]
+			env.vars[id.Name] = Val{T: tInt, C: []Term{k}}
+			body := env.evalBool(x.Args[1])
+			if had {
+				env.vars[id.Name] = saved
+			} else {
+				delete(env.vars, id.Name)
+			}
+			return Val{T: tBool, C: []Term{body}}
 		}
 		env.bound++
 		bv := Term{fmt.Sprintf("%s!q%d_%d", id.Name, tr.id, tr.g.nextBound()), SInt}
@@ -596,7 +631,10 @@ func (env *Env) callExpr(x *ast.CallExpr) Val {
 		}
 		return env.fail("cap of %s", v.T)
 	case "ite":
+		sp := env.pol
+		env.pol = 0
 		c := env.evalBool(x.Args[0])
+		env.pol = sp
 		a, b := env.eval(x.Args[1]), env.eval(x.Args[2])
 		if len(a.C) != len(b.C) {
 			return env.fail("ite branches differ in shape")
@@ -736,6 +774,9 @@ func (env *Env) callExpr(x *ast.CallExpr) Val {
 		for _, a := range x.Args {
 			args = append(args, env.eval(a))
 		}
+		if p.Opaque {
+			return env.viewApp(p, args)
+		}
 		for i, pn := range p.Params {
 			if old, had := env.vars[pn]; had {
 				o := old
@@ -788,4 +829,154 @@ func (g *Gen) bytesToStr(e *Emitter, arr, off, n Term) Term {
 			fmt.Sprintf("(assert (forall ((a (Array Int Int)) (o Int) (n Int) (i Int)) (! (=> (and (<= 0 i) (< i n)) (= (%s (%s a o n) i) (select a (+ o i)))) :pattern ((%s (%s a o n) i)))))", at, f, at, f))
 	}
 	return t
+}
+
+// viewApp applies a `view`: a spec function kept as an uninterpreted symbol per heap state, with a definitional
+// axiom whose pattern is the application itself. Quantified contract clauses over views therefore have clean triggers.
+func (env *Env) viewApp(p *Pred, args []Val) Val {
+	tr := env.tr
+	g := tr.g
+	for _, a := range args {
+		if len(a.C) != 1 {
+			return env.fail("view %s: argument is not a single-component value", p.Name)
+		}
+	}
+	// evaluate the body over placeholders
+	saved := map[string]*Val{}
+	var phs []Term
+	for i, pn := range p.Params {
+		if old, had := env.vars[pn]; had {
+			o := old
+			saved[pn] = &o
+		} else {
+			saved[pn] = nil
+		}
+		ph := Term{fmt.Sprintf("vp!q%d_%s", i, p.Name), args[i].C[0].Sort}
+		phs = append(phs, ph)
+		env.vars[pn] = Val{T: args[i].T, C: []Term{ph}}
+	}
+	body := env.quiet(func() Val { return env.eval(p.Body) })
+	for pn, o := range saved {
+		if o == nil {
+			delete(env.vars, pn)
+		} else {
+			env.vars[pn] = *o
+		}
+	}
+	if len(body.C) != 1 {
+		return env.fail("view %s: body is not a single-component value", p.Name)
+	}
+	key := p.Name + "|" + body.C[0].S
+	fname, ok := g.viewSyms[key]
+	if !ok {
+		fname = fmt.Sprintf("view$%s$%d", p.Name, len(g.viewSyms))
+		g.viewSyms[key] = fname
+		var sorts []Sort
+		var binders, names []string
+		for _, ph := range phs {
+			sorts = append(sorts, ph.Sort)
+			binders = append(binders, fmt.Sprintf("(%s %s)", ph.S, ph.Sort))
+			names = append(names, ph.S)
+		}
+		f := tr.e.declareFun(fname, sorts, body.C[0].Sort)
+		appS := "(" + f + " " + strings.Join(names, " ") + ")"
+		if len(names) == 0 {
+			appS = f
+			tr.e.asserts = append(tr.e.asserts, fmt.Sprintf("(assert (= %s %s))", appS, body.C[0].S))
+		} else {
+			tr.e.asserts = append(tr.e.asserts, fmt.Sprintf("(assert (forall (%s) (! (= %s %s) :pattern (%s))))", strings.Join(binders, " "), appS, body.C[0].S, appS))
+		}
+	}
+	var as []Term
+	for _, a := range args {
+		as = append(as, a.C[0])
+	}
+	return Val{T: body.T, C: []Term{app(body.C[0].Sort, sym(fname), as...)}}
+}
+
+func astHasForall(e ast.Expr) bool {
+	found := false
+	ast.Inspect(e, func(n ast.Node) bool {
+		if c, ok := n.(*ast.CallExpr); ok {
+			if id, ok := c.Fun.(*ast.Ident); ok && id.Name == "__forall" {
+				found = true
+			}
+		}
+		return !found
+	})
+	return found
+}
+
+// clone copies an environment (variables included) so that it can be re-evaluated later.
+func (env *Env) clone() *Env {
+	c := *env
+	c.vars = map[string]Val{}
+	for k, v := range env.vars {
+		c.vars[k] = v
+	}
+	c.letBusy = map[string]bool{}
+	c.skolems = nil
+	return &c
+}
+
+// assumeClause assumes a contract clause under cond and registers it for instantiation at goal skolems.
+func (tr *Trans) assumeClause(env *Env, cond Term, e ast.Expr) {
+	t := env.evalBool(e)
+	tr.e.assume(cond, t)
+	if astHasForall(e) || tr.g.specsHaveQuantPred(e) {
+		snap := env.clone()
+		tr.g.hyps = append(tr.g.hyps, func(k Term) Term {
+			c := snap.clone()
+			c.mode, c.instK, c.pol = 2, k, 1
+			savedSt, savedRC := tr.st, tr.rc
+			defer func() { tr.st, tr.rc = savedSt, savedRC }()
+			return implies(cond, c.evalBool(e))
+		})
+	}
+}
+
+// goalClause evaluates a clause as a proof goal: positive foralls become fresh constants, and every registered
+// quantified hypothesis is instantiated at those constants (returned as extra assumptions for this obligation).
+func (tr *Trans) goalClause(env *Env, e ast.Expr) (Term, []Term) {
+	if !(astHasForall(e) || tr.g.specsHaveQuantPred(e)) {
+		return env.evalBool(e), nil
+	}
+	env.mode, env.pol = 1, 1
+	t := env.evalBool(e)
+	env.mode = 0
+	var extra []Term
+	for _, k := range env.skolems {
+		for _, h := range tr.g.hyps {
+			if x := h(k); x.S != "true" {
+				extra = append(extra, x)
+			}
+		}
+	}
+	env.skolems = nil
+	return t, extra
+}
+
+// specsHaveQuantPred reports whether e calls a pred whose body (transitively) contains a forall.
+func (g *Gen) specsHaveQuantPred(e ast.Expr) bool {
+	found := false
+	var visit func(e ast.Expr, depth int)
+	visit = func(e ast.Expr, depth int) {
+		if depth > 6 || found {
+			return
+		}
+		ast.Inspect(e, func(n ast.Node) bool {
+			if c, ok := n.(*ast.CallExpr); ok {
+				if id, ok := c.Fun.(*ast.Ident); ok {
+					if id.Name == "__forall" {
+						found = true
+					} else if p, ok := g.specs.Preds[id.Name]; ok && !p.Opaque {
+						visit(p.Body, depth+1)
+					}
+				}
+			}
+			return !found
+		})
+	}
+	visit(e, 0)
+	return found
 }
